@@ -1,28 +1,145 @@
 // c06: the live table set is always a well-formed LSM tree — every installed version is re-read and checked
-// in Go (P) and a sample is checked by the Coq boolean wf_versionb (K).
+// in Go (P) and a sample is checked by the Coq boolean wf_versionb (K); every observed table compaction must have
+// closed inputs (P); observed compactions, committed records and direct probes of getOverlaps/pickMemdbLevel are
+// recomputed inside Coq by the picker/installer model Lsm/Pick.v (K: KPick, KFinish, KOverlaps, KMemLevel).
 package main
 
 import (
+	"fmt"
+	"strings"
+	"sync"
+	"sync/atomic"
+	"time"
+
 	"verifharness/lib/dbh"
 	"verifharness/lib/vlib"
 )
 
+const (
+	property = "C06"
+	rule     = "random DB programs (writes, flushes, automatic/seek/manual compactions on sub-ranges, trivial moves, transaction commits, reopen) x option lattice x 4 comparers; after EVERY installed version (commit hook) every live table is re-read and the C06 conditions are checked: file exists with recorded size, strictly ordered, recorded smallest/largest = first/last, level 0 newest first, deeper levels ordered and disjoint, shallower newer than deeper per user key; for EVERY table compaction the inputs must be closed on the version it was picked on (every next-level table overlapping the user-key hull of the source inputs is an input; at level 0 every level-0 table overlapping it too); non-trivial = a version with >=3 populated levels was installed"
+	header   = "From GL Require Import Corr.C06Run."
+	checkWf  = true
+)
+
+func nonTrivial(s map[string]int) bool { return s["max_levels"] >= 3 }
+
+func tweakCfg(r *vlib.RNG, c *dbh.Cfg) {
+	if r.Chance(1, 2) {
+		c.TotalSize = 4096
+		c.TableSize = 1024
+	}
+}
+
+// plainHooks: what replays and the shrinker run with (oracles only, no case collection).
+func plainHooks() dbh.Hooks { return dbh.PickHooks(nil, nil, false, 1) }
+
 func main() {
 	w := dbh.DefaultWeights()
 	w.Compact, w.Txn, w.Reopen, w.Get, w.Has = 8, 4, 4, 25, 10
-	dbh.Main(dbh.MainCfg{
-		Property:   "C06",
-		Rule:       "random DB programs (writes, flushes, automatic/seek/manual compactions on sub-ranges, trivial moves, transaction commits, reopen) x option lattice x 4 comparers; after EVERY installed version (commit hook) every live table is re-read and the C06 conditions are checked: file exists with recorded size, strictly ordered, recorded smallest/largest = first/last, level 0 newest first, deeper levels ordered and disjoint, shallower newer than deeper per user key; non-trivial = a version with >=3 populated levels was installed",
-		Header:     "From GL Require Import Corr.C06Run.",
-		QuickProgs: 560, QuickOps: 300, ThorProgs: 2000, ThorOps: 1200,
-		Weights: w, CheckEvery: 16, CheckWf: true,
-		KPrefixes: []string{"KWf"}, KCapQuick: 240, KCapThor: 1200, KPerRun: 4,
-		NonTrivial: func(s map[string]int) bool { return s["max_levels"] >= 3 },
-		TweakCfg: func(r *vlib.RNG, c *dbh.Cfg) {
-			if r.Chance(1, 2) {
-				c.TotalSize = 4096
-				c.TableSize = 1024
+	a := vlib.ParseArgs()
+	res := vlib.NewResult(property, a.Out, rule)
+	defer res.Write()
+	if a.Replay != "" {
+		p, err := dbh.LoadProgram(a.Replay)
+		if err != nil {
+			fmt.Println("cannot load replay:", err)
+			return
+		}
+		for i := 0; i < 3; i++ {
+			rr, _ := dbh.RunPick(p, plainHooks(), checkWf, nil)
+			res.Eval(fmt.Sprintf("replay%d", i), true)
+			if d := dbh.Describe(rr); d != "" {
+				fmt.Println("replay fails:", d)
+				res.Violate(d, p)
+				return
 			}
-		},
-	})
+		}
+		fmt.Println("replay passes")
+		return
+	}
+	nprog, nops := 240, 300
+	caps := dbh.PickCaps{Pick: 600, Finish: 600, Overlaps: 400, MemLevel: 200, Wf: 240}
+	shards, kPerRun := 16, 4
+	if a.Thorough() {
+		nprog, nops = 2000, 1200
+		caps = dbh.PickCaps{Pick: 2400, Finish: 2400, Overlaps: 1600, MemLevel: 800, Wf: 1200}
+		shards = 64
+	}
+	if strings.Contains(a.Extra, "search") && !a.Thorough() {
+		nprog *= 4
+	}
+	col := dbh.NewPickCol(caps)
+	root := vlib.NewRNG(a.Seed)
+	type job struct {
+		i int
+		r *vlib.RNG
+	}
+	jobs := make(chan job)
+	var wg sync.WaitGroup
+	var nShrunk int32 // failing runs taken up for shrinking and reporting (at most 6)
+	for wk := 0; wk < 16; wk++ {
+		wg.Add(1)
+		go func() {
+			defer wg.Done()
+			for j := range jobs {
+				r := j.r
+				cfg := dbh.RandomCfg(r)
+				tweakCfg(r, &cfg)
+				pool := dbh.GenPool(r, r.Range(8, 60), r.Chance(1, 8))
+				p := dbh.GenProgram(r, cfg, pool, r.Range(nops/3, nops), w)
+				p.Seed = a.Seed
+				collectWf := j.i%2 == 0
+				kr := r.Fork()
+				rr, rn := dbh.RunPick(p, dbh.PickHooks(col, kr, true, 16), checkWf, func(rn *dbh.Runner) {
+					rn.CollectK = collectWf
+					rn.KCap = kPerRun
+				})
+				if collectWf {
+					for _, kc := range rn.KCases {
+						if strings.HasPrefix(kc, "KWf ") {
+							col.Add(dbh.KCand{Kind: "wf", Tags: []string{"k_wf"}, Text: "KL (" + kc + ")"})
+						}
+					}
+				}
+				for k, v := range rr.Stats {
+					if k == "max_levels" || k == "max_live_snapshots" {
+						res.Count("runs_with_"+k+fmt.Sprintf("_%d", v), 1)
+					} else {
+						res.Count(k, v)
+					}
+				}
+				res.Eval(fmt.Sprintf("%d", j.i), nonTrivial(rr.Stats))
+				if j.i < 2 {
+					n := 4
+					if len(p.Ops) < n {
+						n = len(p.Ops)
+					}
+					res.Sample(map[string]interface{}{"cfg": cfg.String(), "ops": len(p.Ops), "first_ops": p.Ops[:n], "stats": rr.Stats})
+				}
+				d := dbh.Describe(rr)
+				if d != "" {
+					res.Count("runs_failed", 1)
+				}
+				if d != "" && atomic.AddInt32(&nShrunk, 1) <= 6 {
+					q, d2 := dbh.ShrinkPick(p, plainHooks, checkWf, 20*time.Second)
+					if d2 != "" {
+						res.Violate(d2, q)
+					} else {
+						res.Violate(d+" ["+cfg.String()+"] (not shrunk)", p)
+					}
+				}
+			}
+		}()
+	}
+	for i := 0; i < nprog; i++ {
+		jobs <- job{i, root.Fork()}
+	}
+	close(jobs)
+	wg.Wait()
+	cases, counts := col.Select(shards)
+	for k, v := range counts {
+		res.Count(k, v)
+	}
+	res.WriteCases(header, "c06case", "mismatches06", cases, shards)
 }
